@@ -400,9 +400,15 @@ def np_prod(ex, args, kw):
 @lib(NP, "append")
 def np_append(ex, args, kw):
     a, b = args[0], args[1]
-    la = a.items if isinstance(a, Vec) else list(a)
-    lb = b.items if isinstance(b, Vec) else (list(b) if isinstance(b, (list, tuple)) else [b])
-    return Vec(la + lb)
+    def items(x):
+        if isinstance(x, Vec):
+            return x.items
+        if isinstance(x, (list, tuple)):
+            return list(x)
+        if _is_scalar(x):
+            return [x]
+        raise Unsupported("np.append of a symbolic-length array")
+    return Vec(items(a) + items(b))
 
 
 @lib(NP, "fromfile")
